@@ -104,7 +104,28 @@ def image(c):
     return img
 
 
-def run_case(c):
+class _Watchdog(Exception):
+    pass
+
+
+def run_case(c, limit=240):
+    """run_case_inner under an alarm: a finder that does not come back (e.g. one image-sized island) is a failure, not a hang"""
+    import signal
+
+    def onalarm(signum, frame):
+        raise _Watchdog()
+    old = signal.signal(signal.SIGALRM, onalarm)
+    signal.alarm(limit)
+    try:
+        return run_case_inner(c)
+    except _Watchdog:
+        return [("finder_completes", "find_sources_in_image did not finish within %d s | case %s" % (limit, c))], {}, []
+    finally:
+        signal.alarm(0)
+        signal.signal(signal.SIGALRM, old)
+
+
+def run_case_inner(c):
     h = header(c)
     img = image(c)
     tmp = tempfile.mkdtemp(prefix="c01_")
@@ -115,8 +136,15 @@ def run_case(c):
         off = c.get('bkg_offset', 0.0)
         if off:
             fits.PrimaryHDU(img + off, header=h).writeto(path, overwrite=True)
-        rows = SourceFinder(log=log).find_sources_in_image(path, rms=rms, bkg=off, cores=1, docov=c['docov'],
-                                                           nonegative=not c.get('negative'), nopositive=False)
+        if c.get('estimate_bkg'):
+            # a constant level plus a little noise; the noise is forced, the background is left to the finder
+            fits.PrimaryHDU(img + c['level'], header=h).writeto(path, overwrite=True)
+            rows = SourceFinder(log=log).find_sources_in_image(path, rms=rms, cores=1, docov=c['docov'])
+        elif c.get('default_polarity'):
+            rows = SourceFinder(log=log).find_sources_in_image(path, rms=rms, bkg=off, cores=1, docov=c['docov'])
+        else:
+            rows = SourceFinder(log=log).find_sources_in_image(path, rms=rms, bkg=off, cores=1, docov=c['docov'],
+                                                               nonegative=not c.get('negative'), nopositive=False)
     finally:
         shutil.rmtree(tmp, ignore_errors=True)
     rows = [r for r in rows if isinstance(r, ComponentSource)]
@@ -130,7 +158,7 @@ def run_case(c):
             rows = rows[:1]
     if len(rows) != 1:
         a_ = np.abs(img)
-        if not c['noise'] and int((a_ >= a_.max() * (1 - 1e-12)).sum()) > 1:
+        if not c['noise'] and len(rows) > 1 and int((a_ >= a_.max() * (1 - 1e-12)).sum()) > 1:
             return [("exactly_one_component.tied_brightest_pixels",
                      "%d components for one Gaussian whose centre is equidistant from %d pixels (exactly equal brightest pixels) | case %s" % (
                          len(rows), int((a_ >= a_.max() * (1 - 1e-12)).sum()), c))], t, rows
@@ -214,6 +242,21 @@ def crosscheck(p):
                 failures.append({"label": lab, "input": {"seed": s0 + i, "overrides": over}, "what": what, "replay_func": "replay_recovery",
                                  "replay_payload": {"cases": [[s0 + i, over]]}})
     for k_, over in enumerate(CORNER_CASES):
+        evals += 1
+        try:
+            fl = run_case(make_case(5, over))[0]
+        except Exception as e:
+            fl = [("finder_completes", repr(e))]
+        for lab, what in fl:
+            if lab not in seen:
+                seen.add(lab)
+                failures.append({"label": lab, "input": {"seed": 5, "overrides": over}, "what": what, "replay_func": "replay_recovery",
+                                 "replay_payload": {"cases": [[5, over]]}})
+    # default options (no polarity keywords) on a negative source; forced rms with the background left to the internal estimate
+    for label, over in (("defaults_negative", dict(_BASE, negative=True, default_polarity=True, beam_pix=(5.0, 4.0, 20.0), fwhm=(6.0, 5.0),
+                                                   phi=40.0, fx=40.2, fy=39.7)),
+                        ("forced_rms_estimated_bkg", dict(_BASE, nx=100, ny=100, beam_pix=(5.0, 4.0, 20.0), fwhm=(6.0, 5.0), phi=40.0,
+                                                           fx=50.2, fy=49.7, level=0.5, noise=0.01, white=True, noise_seed=3, estimate_bkg=True))):
         evals += 1
         try:
             fl = run_case(make_case(5, over))[0]
